@@ -168,7 +168,7 @@ def classify(ob, job):
     if desc.startswith("source_assert") or desc.startswith("source_unreachable"):
         return "contract", ["C02"]
     # contract instrumentation obligations of goto-instrument --dfcc
-    if re.search(r"Check (ensures|requires|that .* is assignable|loop invariant|variant|invariant|decreases)", desc, re.I) or \
+    if re.search(r"Check (ensures|requires|that .* is assignable|loop invariant|variant|invariant|decreases)", desc, re.I) or re.search(r"loop invariant|decreases clause|loop variant|Check step was unwound", desc, re.I) or \
        re.search(r"(postcondition|precondition|assigns|loop_invariant|loop_decreases|loop_assigns|loop_step_unwinding)", name):
         if re.search(r"is assignable", desc) and not os.path.basename(f).startswith("gen."):
             return "internal", []      # a ghost variable of the harness is missing from a loop frame: a specification gap, never a violation
